@@ -217,18 +217,41 @@ Definition enc_req (r : wreq) : list Z :=
 
 Definition enc_reqs (l : list wreq) : list Z := zlen l :: concat (map enc_req l).
 
-(* changed cells of page k: count, bounding box and two checksums (keeps the compared lists short) *)
-Definition diff_summary (d : list (Z * Z * Z)) : list Z :=
-  match d with
-  | [] => [0]
-  | _ =>
-    let ys := map (fun t => fst (fst t)) d in
-    let xs := map (fun t => snd (fst t)) d in
-    [zlen d; fold_right Z.min (hd 0 ys) ys; fold_right Z.max (hd 0 ys) ys;
-     fold_right Z.min (hd 0 xs) xs; fold_right Z.max (hd 0 xs) xs;
-     fold_right (fun t acc => (acc + (fst (fst t) * 1009 + snd (fst t) * 31 + snd t + 1)) mod 1000003) 0 d;
-     fold_right (fun t acc => (acc * 7 + fst (fst t) * 13 + snd (fst t) * 3 + snd t) mod 999983) 0 d]
+(* changed cells of a page in one tail-recursive pass (no intermediate list: pages have 64000+ cells; per cell
+   only additions).  Per row: count, first and last changed x, sum of x, sum of new values.  Summary: count,
+   bounding box, c1 = sum over cells of (y*1009 + x*31 + v + 1), c2 = sum over rows of (y+1)*(sx + 7*sv + 3*cnt) *)
+Definition rsum : Type := (Z * Z * Z * Z * Z)%type.      (* cnt, firstx, lastx, sx, sv *)
+Definition dsum : Type := (Z * Z * Z * Z * Z * Z * Z)%type.
+
+Fixpoint rsum_row (x : Z) (r r' : list Z) (acc : rsum) : rsum :=
+  match r, r' with
+  | a :: t, b :: t' =>
+    rsum_row (x + 1) t t'
+      (if a =? b then acc
+       else let '(n, fx, lx, sx, sv) := acc in
+            (n + 1, (if n =? 0 then x else fx), x, sx + x, sv + b))
+  | _, _ => acc
   end.
+
+Definition dsum_add_row (acc : dsum) (y : Z) (rs : rsum) : dsum :=
+  let '(rn, fx, lx, sx, sv) := rs in
+  if rn =? 0 then acc
+  else
+    let '(n, y0, y1, x0, x1, c1, c2) := acc in
+    let c1' := c1 + rn * (y * 1009 + 1) + 31 * sx + sv in
+    let c2' := c2 + (y + 1) * (sx + 7 * sv + 3 * rn) in
+    if n =? 0 then (rn, y, y, fx, lx, c1', c2')
+    else (n + rn, y0, y, Z.min x0 fx, Z.max x1 lx, c1', c2').
+
+Fixpoint dsum_rows (y : Z) (m m' : matrix) (acc : dsum) : dsum :=
+  match m, m' with
+  | r :: t, r' :: t' => dsum_rows (y + 1) t t' (dsum_add_row acc y (rsum_row 0 r r' (0, 0, 0, 0, 0)))
+  | _, _ => acc
+  end.
+
+Definition diff_summary (m m' : matrix) : list Z :=
+  let '(n, y0, y1, x0, x1, c1, c2) := dsum_rows 0 m m' (0, 0, 0, 0, 0, 0, 0) in
+  if n =? 0 then [0] else [n; y0; y1; x0; x1; c1; c2].
 
 Definition enc_vp (vp : viewport) : list Z :=
   [b2z (vp_abs vp); vp_x0 vp; vp_y0 vp; vp_x1 vp; vp_y1 vp].
@@ -240,9 +263,9 @@ Definition run_case (text : bool) (bpp w h npages : Z) (apage : Z) (bg : Z) (vp 
   let st := GS text bpp pages (Z.to_nat apage) vp in
   let '(r, st') := exec st s in
   match r with
-  | Ok _ => 0 :: concat (map (fun '(p, p') => diff_summary (mat_diff p p')) (combine pages (g_pages st')))
+  | Ok _ => 0 :: concat (map (fun '(p, p') => diff_summary p p') (combine pages (g_pages st')))
               ++ enc_vp (g_vp st')
-  | Err e => [1; e] ++ concat (map (fun '(p, p') => diff_summary (mat_diff p p')) (combine pages (g_pages st')))
+  | Err e => [1; e] ++ concat (map (fun '(p, p') => diff_summary p p') (combine pages (g_pages st')))
   | Host x => [2; x]
   | OutOfFuel => [3]
   end.
